@@ -22,6 +22,8 @@ def main():
         cov = coverage.Coverage(data_file=os.path.join(os.environ["RVMON_COVERAGE"], f".coverage.{check}.{os.getpid()}"),
                                 include=[os.path.join(env.SRC, "rv", "*")], branch=True)
         cov.start()
+    if spec.get("python_flags"):
+        res.count("shards_with_interpreter_flags_" + "".join(spec["python_flags"]).replace("-", "").replace(" ", "_"))
     if spec.get("rv_loglevel"):
         os.environ["RVMON_RV_LOGLEVEL"] = spec["rv_loglevel"]
         res.count("shards_with_library_debug_logging")
